@@ -16,7 +16,7 @@ import (
 const membershipChangeTimeout time.Duration = 5 * time.Second
 
 var (
-	MembershipChangeNotAppliedErr error = errors.New("Membership change was not applied in time")
+	MembershipChangeNotAppliedErr error = ConfChangeNotAppliedErr
 )
 
 type NodesManager struct {
@@ -52,13 +52,10 @@ func (this *NodesManager) ListNodes() map[uint64]string {
 }
 
 func (this *NodesManager) AddNode(id uint64, address string) (map[uint64]string, error) {
-	if err := this.zeroGroup.ProposeJoin(id, address); err != nil {
-		return nil, err
-	}
-	// So far the change is only proposed. Raft ignores a membership change while
-	// another one is in progress and a proposal can be lost when the leader changes.
-	// Do not acknowledge the join before it is applied (the joining node retries).
-	if err := this.waitForMembership(id, true); err != nil {
+	// Raft ignores a membership change while another one is in progress and a proposal
+	// can be lost when the leader changes. Do not acknowledge the join before this very
+	// change is applied (the joining node retries).
+	if err := this.zeroGroup.ProposeJoinAndWait(id, address, membershipChangeTimeout); err != nil {
 		return nil, err
 	}
 
@@ -68,28 +65,7 @@ func (this *NodesManager) AddNode(id uint64, address string) (map[uint64]string,
 }
 
 func (this *NodesManager) RemoveNode(id uint64) error {
-	if err := this.zeroGroup.ProposeLeave(id); err != nil {
-		return err
-	}
-	return this.waitForMembership(id, false)
-}
-
-// Waits until this node has applied the membership change of the given node.
-func (this *NodesManager) waitForMembership(id uint64, member bool) error {
-	deadline := time.After(membershipChangeTimeout)
-	ticker := time.NewTicker(50 * time.Millisecond)
-	defer ticker.Stop()
-
-	for {
-		if _, exists := this.clusterConn.Nodes()[id]; exists == member {
-			return nil
-		}
-		select {
-		case <- ticker.C:
-		case <- deadline:
-			return MembershipChangeNotAppliedErr
-		}
-	}
+	return this.zeroGroup.ProposeLeaveAndWait(id, membershipChangeTimeout)
 }
 
 func (this *NodesManager) tryJoin(ctx context.Context, address string) error {
